@@ -47,6 +47,25 @@ def regen(ctx):
 
 GENERATORS = [regen]
 
+
+# --- tie of kind (1) (task W15): Gen/InheritPrio.lean is regenerated from DiagLayerType.inheritance_priority and
+# HierarchyElement._get_parent_refs_sorted_by_priority of the current source by the Python->Lean translator and proved equal to
+# LayerKind.prio / the model's stable sort (Proofs/InheritPrioGenEq.lean)
+LEAN_TARGETS = LEAN_TARGETS + ["OdxVerif.Props.C15Gen"]
+THEOREMS = THEOREMS + ["OdxVerif.Comparam." + t for t in ['C15_gen_parent_order', 'stableSort_eq_sortAsc']]
+TRUSTED = TRUSTED + ["translator harness/extract/py2lean.py + primitives lean/OdxVerif/Model/PyRt.lean for DiagLayerType.inheritance_priority (dict literal + "
+                     "look-up) and HierarchyElement._get_parent_refs_sorted_by_priority (sorted(key=, reverse=) = Py.sortedByKeyM: keys first, then a "
+                     "stable sort in either direction; getattr(raw, 'parent_refs', []) = the list of parent references, empty for layers without)"]
+
+
+def regen_inherit_prio(ctx):
+    """Gen/InheritPrio.lean from the current source; Unsupported (source left the translator's subset) = broken obligation"""
+    from extract import py2lean
+    py2lean.regenerate_inherit_prio(common.REPO, common.VERIF)
+
+
+GENERATORS = GENERATORS + [regen_inherit_prio]
+
 # ----------------------------------------------------------------------------- generators
 
 INTS = ["0", "1", "8", "123", "2016", "500000", "4294967295", " 42 ", "+7", "-3", "1_000", "007", "\t9\n", "0x10", "12a", "1.5",
